@@ -118,6 +118,30 @@ for m in re.finditer(pat, body):
     else: name = "soft_errors"
     if m.group(2) and ".or_else" in prefix: continue   # the fallback file of the same step
     plan.append((name, soft))
+# the stream type each step gives its directory entry, by the name used in the source
+SECTION_FILES = {"thread_list_stream": "linux/sections/thread_list_stream.rs", "mappings": "linux/sections/mappings.rs", "memory_list_stream": "linux/sections/memory_list_stream.rs",
+                 "exception_stream": "linux/sections/exception_stream.rs", "systeminfo_stream": "linux/sections/systeminfo_stream.rs",
+                 "memory_info_list_stream": "linux/sections/memory_info_list_stream.rs", "thread_names_stream": "linux/sections/thread_names_stream.rs",
+                 "handle_data_stream": "linux/sections/handle_data_stream.rs", "dso_debug": "linux/dso_debug.rs"}
+step_types = []
+matches = list(re.finditer(pat, body))
+for i, m in enumerate(matches):
+    if m.group(2) and ".or_else" in body[body.rfind(";", 0, m.start()) + 1:m.start()]: continue
+    tok = m.group(0)
+    name = m.group(1) or ("file_" + re.sub(r"[^a-z]+", "_", m.group(2).replace("{}", "pid").lower()).strip("_") if m.group(2) else "dso_debug" if "dso_debug" in tok else "resume_threads" if "resume_threads" in tok else "soft_errors")
+    if name in SECTION_FILES:
+        t = strip_comments((SRC / SECTION_FILES[name]).read_text())
+        tys = sorted(set(re.findall(r"MDStreamType::(\w+)", t)))
+        if len(tys) != 1: raise ValueError(f"{name}: expected exactly one stream type in its file, found {tys}")
+        step_types.append((name, tys[0]))
+    elif name in ("app_memory", "resume_threads"):
+        continue
+    else:
+        end = body.find("dir_section.write_to_file", m.end())
+        tys = re.findall(r"MDStreamType::(\w+)", body[m.end():end if end > 0 else len(body)])
+        if len(tys) != 1: raise ValueError(f"{name}: expected exactly one stream type before its flush, found {tys}")
+        step_types.append((name, tys[0]))
+emit("Definition step_stream_names : list (step * string) := [\n  " + ";\n  ".join(f'(St_{n}, "{t}"%string)' for n, t in step_types) + "].")
 emit("Definition stream_plan : list (step * bool) := [  (* step, best-effort? *)\n  " +
      ";\n  ".join(f"(St_{n}, {'true' if k else 'false'})" for n, k in plan) + "].")
 
